@@ -63,6 +63,18 @@ def atoi (s : Str) : Option Int :=
   | '-' :: r => atoiBody true r
   | _ => atoiBody false s
 
+/-- `new(big.Int).SetString(s, 10)`: optional sign, at least one digit, digits
+    only (no blanks, no underscores in base 10), no bound on the value. -/
+def parseBigBody (neg : Bool) (ds : Str) : Option Int :=
+  if ds.isEmpty || !allDigits ds then none
+  else if neg then some (-(digitsVal ds : Int)) else some (digitsVal ds : Int)
+
+def parseBigDec (s : Str) : Option Int :=
+  match s with
+  | '+' :: r => parseBigBody false r
+  | '-' :: r => parseBigBody true r
+  | _ => parseBigBody false s
+
 /-- `strconv.ParseUint(s, 10, 64)` -/
 def parseUint (s : Str) : Option Nat :=
   if s.isEmpty || !allDigits s then none
@@ -1022,7 +1034,7 @@ def strSlice (s : Str) (lo hi : Int) : R Str :=
 
 /-- `NumKeyRange.Contains` -/
 def rangeContains (r : Int × Int) (i : Int) : Bool :=
-  decide (r.1 ≤ i) && (decide (r.2 = maxInt64) || decide (i < r.2))
+  decide (r.1 ≤ i) && decide (i < r.2)
 
 /-- the loop of `NumRangeShard.FindForKey` -/
 def rangeFind : List (Int × Int) → Int → Int → Option Int
@@ -1108,10 +1120,12 @@ def findForKey (bucketOf : Nat → Nat → Int) (murmurKeyHash : Str → Int) (s
     | .fail => .fail
     | .panic => .panic
   | .mycatMod n =>
-    match numValue key with
-    | .ok v => if n = 0 then .panic else .ok (goMod (hackAbs v) n)
-    | .fail => .fail
-    | .panic => .panic
+    -- `new(big.Int).SetString(GetString(key), 10)`, `Abs`, `Mod` (722beea): |key| mod n on
+    -- the full integer; a key that is not a decimal integer is the recovered KeyError panic,
+    -- `Mod` by zero a run-time panic
+    match parseBigDec (getString key) with
+    | some v => if n = 0 then .panic else .ok ((v.natAbs : Int) % n)
+    | none => .fail
   | .mycatLong segment =>
     match numValue key with
     | .ok v =>
